@@ -3,9 +3,9 @@
    cst     : REQ OPT DIR APP DATE ISO LIT | CONST <atom value> | ENUM <k> <str>*k | TYPE <str> | REGEX <pat>
              | RANGE <fl> <fl> | MAXL <int> | MINL <int> | LANG <str>
    fltab   : <k> (<text> <fl>)*k                      float(text) of every float literal of the document
-   def     : ~ | D <name> <policy> <nf> (<field> <0|1> [<k> <cst>*k])*nf <nr> (<field> <target|~>)*nr <default|~> <npt> <str>*npt <hasfm 0|1>
+   def     : ~ | D <name> <policy> <nf> (<field> <0|1> [<k> <cst>*k])*nf <nr> (<field> <target|~>)*nr <default|~> <npt> <str>*npt <hasfm 0|1> <nreq> <required fm field>*nreq
    orcs    : <nblocks> ( <nfields> ( <field> <str(v)> <float(v) ~|fl> <0|1> <0|1> <nre> (<pat> <0|1>)*nre )*nfields )*nblocks
-   all <builtin name|~> <def> <fltab> <orcs> <sp extra|-> <nfm> (<code> <path>)*nfm <doc (astcodec)>
+   all <builtin name|~> <def> <fltab> <orcs> <sp extra|-> <nfm> (<code> <path>)*nfm <doc (astcodec)>      (fm = validate_frontmatter on a NON-blank frontmatter; unused otherwise)
         -> V:<STRICT> | V:<STANDARD> | V:<LENIENT> | V:<ULTRA> | A:<errs> | W:<status errs> | C:<status errs>     or OUT per part
    topy <fltab> <doc-codec value>  -> value (cst codec) | OUT *)
 let toks = ref [||]
@@ -148,8 +148,10 @@ let pdef () : sdef option =
       let npt = int_of_string (next ()) in
       let pts = times npt (fun () -> str_of_tok (next ())) in
       let fm = (next () = "1") in
+      let nreq = int_of_string (next ()) in
+      let req = times nreq (fun () -> str_of_tok (next ())) in
       Some { sd_name = name; sd_schema = { sc_fields = fields; sc_policy = pol }; sd_routes = routes;
-             sd_default_target = dt; sd_policy_targets = pts; sd_has_fm = fm }
+             sd_default_target = dt; sd_policy_targets = pts; sd_has_fm = fm; sd_fm_required = req }
   | _ -> failwith "def"
 
 let dummy_orc : orc = { o_str = []; o_float = None; o_fromiso = false; o_fromiso_z = false; o_re = (fun _ -> failwith "noregexoracle") }
